@@ -240,6 +240,10 @@ type cpyIso struct {
 
 	afterFailure bool // some earlier call of the program failed
 
+	canonMemo map[pdf.Reference]pdf.Reference
+	fwdVia    map[pdf.Reference]pdf.Reference // the reference through which a source object was first reached
+	nodes     map[pdf.Reference]*cpyNode      // what the harness wrote
+
 	truth map[int64]cpyTruth // /CpyId -> the plaintext the harness wrote into that source stream
 }
 
@@ -264,26 +268,112 @@ func (c *cpyIso) fail(key, format string, a ...any) {
 	}
 }
 
+// cpyChain follows the chain "N 0 obj M 0 R endobj" from s, read through g: the links, in order,
+// and whether the chain ends properly (at an object which is not a reference, or at an undefined
+// one) within the depth Resolve allows.
+func cpyChain(g pdf.Getter, s pdf.Reference) ([]pdf.Reference, bool) {
+	chain := []pdf.Reference{s}
+	for cur := s; ; {
+		v, err := g.Get(cur, true)
+		if err != nil {
+			return chain, false
+		}
+		r, isRef := v.(pdf.Reference)
+		if !isRef {
+			return chain, true
+		}
+		for _, x := range chain {
+			if x == r {
+				return chain, false
+			}
+		}
+		if len(chain) >= 256 {
+			return chain, false
+		}
+		chain = append(chain, r)
+		cur = r
+	}
+}
+
+// cpyLinks follows the chain from s as far as it goes (no depth limit; stops at a repetition).
+func cpyLinks(g pdf.Getter, s pdf.Reference) []pdf.Reference {
+	chain := []pdf.Reference{s}
+	seen := map[pdf.Reference]bool{s: true}
+	for cur := s; len(chain) < 5000; {
+		v, err := g.Get(cur, true)
+		if err != nil {
+			break
+		}
+		r, isRef := v.(pdf.Reference)
+		if !isRef || seen[r] {
+			break
+		}
+		seen[r] = true
+		chain = append(chain, r)
+		cur = r
+	}
+	return chain
+}
+
+// canon is the source object a source reference stands for: the last link of its chain of
+// references.  All references with the same canon must be translated to the same target.
+func (c *cpyIso) canon(s pdf.Reference) pdf.Reference {
+	if k, ok := c.canonMemo[s]; ok {
+		return k
+	}
+	chain, ok := cpyChain(c.S, s)
+	k := s
+	if ok {
+		k = chain[len(chain)-1]
+	}
+	c.canonMemo[s] = k
+	return k
+}
+
 func (c *cpyIso) matchRef(s, t pdf.Reference, path string) {
-	if old, ok := c.fwd[s]; ok {
+	// a Redirect of any link of the chain decides the translation of everything before it
+	chain, _ := cpyChain(c.S, s)
+	for _, link := range chain {
+		if rt, ok := c.redirected[link]; ok {
+			if rt != t {
+				c.fail("redirect-ignored", "%s: source %v (reached as %v) was redirected to %v but appears as %v", path, link, s, rt, t)
+			}
+			return
+		}
+	}
+	k := c.canon(s)
+	if old, ok := c.fwd[k]; ok {
 		if old != t {
-			c.fail("sharing-lost", "%s: source %v was copied to %v and to %v", path, s, old, t)
+			if k != s || c.fwdVia[k] != s {
+				c.fail("alias-not-shared", "%s: source object %v was copied to %v (reached as %v) and to %v (reached as %v): references to one object through indirect objects whose value is a reference must share the copy", path, k, old, c.fwdVia[k], t, s)
+			} else {
+				c.fail("sharing-lost", "%s: source %v was copied to %v and to %v", path, s, old, t)
+			}
 		}
 		return
 	}
-	if rt, ok := c.redirected[s]; ok {
-		if rt != t {
-			c.fail("redirect-ignored", "%s: source %v was redirected to %v but appears as %v", path, s, rt, t)
+	if old, ok := c.bwd[t]; ok && old != k {
+		// not a merge if the chains of the two references meet (a chain which does not end
+		// properly - malformed or unreadable link, loop - is still a chain)
+		// (links beyond the depth Resolve admits included: CopyReference looks a link up in its
+		// table before it looks at the depth, so the head of an over-deep chain is an alias of an
+		// object copied earlier, and null otherwise)
+		leads := false
+		mine := map[pdf.Reference]bool{}
+		for _, l := range cpyLinks(c.S, s) {
+			mine[l] = true
 		}
-		c.fwd[s] = t
+		for _, l := range append(cpyLinks(c.S, c.fwdVia[old]), old) {
+			leads = leads || mine[l] // the two chains meet: both are aliases of what comes after
+		}
+		if !leads {
+			c.fail("objects-merged", "%s: sources %v and %v both map to target %v", path, old, k, t)
+		}
 		return
 	}
-	if old, ok := c.bwd[t]; ok && old != s {
-		c.fail("objects-merged", "%s: sources %v and %v both map to target %v", path, old, s, t)
-		return
-	}
-	c.fwd[s] = t
-	c.bwd[t] = s
+	c.fwd[k] = t
+	c.fwdVia[k] = s
+	c.bwd[t] = k
 	c.queue = append(c.queue, [2]pdf.Reference{s, t})
 }
 
@@ -485,12 +575,24 @@ func (c *cpyIso) run() {
 	for len(c.queue) > 0 && c.key == "" {
 		p := c.queue[0]
 		c.queue = c.queue[1:]
+		if len(cpyLinks(c.S, p[0])) > 256 {
+			// a chain deeper than Resolve admits: null, or (if a later link was copied before) an
+			// alias of that copy - depends on the order of the calls, no claim
+			continue
+		}
 		sv, err := pdf.Resolve(c.S, p[0])
 		if err != nil {
 			if !pdf.IsMalformed(err) {
 				continue // unreadable source: Copy reports the error, nothing to compare
 			}
-			sv = nil // malformed or cyclic: copied as null
+			// malformed or cyclic: copied as null.  But a stream which the harness wrote with the
+			// real Writer is not a malformed object: if the Getter cannot hand it out, that is an
+			// error to report, not a null to copy.
+			if nd := c.nodes[c.canon(p[0])]; nd != nil && nd.kind == nkStream && nd.ov != ovBad && nd.ov != ovIO && nd.selfFilter == 0 && nd.aesLen == 0 {
+				c.fail("stream-became-null", "%v: the source stream %v cannot be read through the Getter (%v); the copy succeeded and holds null in its place", p[0], nd.ref, err)
+				return
+			}
+			sv = nil
 		}
 		c.matchTop(sv, p[1], fmt.Sprintf("%v", p[0]), true)
 	}
@@ -499,6 +601,7 @@ func (c *cpyIso) run() {
 // ---- one case against the real code ----
 
 type cpyResult struct {
+	noEmit   bool   // oracle only: no line for the model
 	failed   bool   // some call of the program returned an error
 	line     string // canonical implementation result
 	opLine   string
@@ -520,6 +623,19 @@ func runCpyCase(cs *cpyCase, thorough bool) (res cpyResult) {
 		genCpyProg(b, thorough)
 	}
 
+	// sources which legitimately make a copy fail
+	aesOnly := cs.aesBroken && !cs.mayFail // then every failure must be a malformed-file error
+	if cs.aesBroken {
+		cs.mayFail = true
+		res.noEmit = true // the model has no notion of ciphertext which cannot be decrypted
+	}
+	if cs.srcWriter && cs.srcNoReaderAt {
+		for _, nd := range cs.nodes {
+			if nd.kind == nkStream || nd.compressed { // object streams are streams too
+				cs.mayFail = true // such a Writer cannot hand out stream data: an error is the right answer
+			}
+		}
+	}
 	var start []pdf.Reference
 	for _, nd := range cs.nodes {
 		start = append(start, nd.ref)
@@ -594,6 +710,7 @@ func runCpyCase(cs *cpyCase, thorough bool) (res cpyResult) {
 	expected := map[pdf.Reference]pdf.Reference{}
 	redirected := map[pdf.Reference]pdf.Reference{}
 	copiedBefore := map[pdf.Reference]bool{} // source refs (possibly) reached by earlier operations
+	walked := map[pdf.Reference]bool{}       // ... whose value has been walked by markReached
 	markReached := func(o pdf.Object) {
 		saved := b.S.gets
 		b.S.gets = -1 << 40
@@ -602,12 +719,26 @@ func runCpyCase(cs *cpyCase, thorough bool) (res cpyResult) {
 		for len(queue) > 0 {
 			ref := queue[0]
 			queue = queue[1:]
-			if copiedBefore[ref] {
+			if walked[ref] {
 				continue
 			}
+			walked[ref] = true
 			copiedBefore[ref] = true
 			if _, isRedirected := redirected[ref]; isRedirected {
 				continue
+			}
+			if links := cpyLinks(b.S, ref); len(links) > 1 {
+				stop := false
+				for _, l := range links[1:] {
+					copiedBefore[l] = true
+					if _, isRedirected := redirected[l]; isRedirected {
+						stop = true
+						break
+					}
+				}
+				if stop {
+					continue
+				}
 			}
 			v, err := pdf.Resolve(b.S, ref)
 			if err != nil || v == nil {
@@ -791,6 +922,10 @@ func runCpyCase(cs *cpyCase, thorough bool) (res cpyResult) {
 				if !cs.mayFail && res.key == "" {
 					res.key = "unexpected-error"
 					res.desc = fmt.Sprintf("operation %d (%s) failed on a source without unreadable parts: %v", i, opToken(op), opErr)
+				}
+				if aesOnly && oc.class != "malformed" && res.key == "" {
+					res.key = "wrong-error-class"
+					res.desc = fmt.Sprintf("operation %d (%s): an AES stream of the source is too short to be decrypted, a defect of the file; the copy fails with %q (class %s), which CopyReference treats as a failure of the byte source", i, opToken(op), opErr.Error(), oc.class)
 				}
 				// whatever the failed call copied before it failed stays copied
 				switch op.kind {
@@ -994,7 +1129,7 @@ func runCpyCase(cs *cpyCase, thorough bool) (res cpyResult) {
 			}
 		}
 	}
-	iso := &cpyIso{truth: truth, afterFailure: anyFailed, S: b.S, T: T, fwd: map[pdf.Reference]pdf.Reference{}, bwd: map[pdf.Reference]pdf.Reference{}, redirected: redirected}
+	iso := &cpyIso{canonMemo: map[pdf.Reference]pdf.Reference{}, fwdVia: map[pdf.Reference]pdf.Reference{}, nodes: b.S.nodes, truth: truth, afterFailure: anyFailed, S: b.S, T: T, fwd: map[pdf.Reference]pdf.Reference{}, bwd: map[pdf.Reference]pdf.Reference{}, redirected: redirected}
 	for i, oc := range outs {
 		path := "op" + strconv.Itoa(i)
 		switch {
@@ -1019,7 +1154,10 @@ var cpyCorpusNames = []string{"D19-stale-trans", "D19b-cycle-failure", "D4-empty
 	"put-later-rc4", "put-later-aes128", "put-later-aes256", "put-later-plain",
 	"open-stream-rc4", "open-stream-aes256", "open-stream-plain",
 	"metadata-rc4-40", "metadata-rc4-128", "metadata-aes128", "metadata-aes256",
-	"metadata-aes128-encmeta-false", "metadata-aes256-encmeta-false", "metadata-aes256-encmeta-false-enc-target"}
+	"metadata-aes128-encmeta-false", "metadata-aes256-encmeta-false", "metadata-aes256-encmeta-false-enc-target",
+	"alias-shared", "alias-cycle", "alias-redirect", "filter-is-self", "decodeparms-is-other-stream",
+	"writer-source-readerat", "writer-source-no-readerat",
+	"aes-empty-stream", "aes-iv-only", "aes-short-5", "aes-short-20"}
 
 // cpyCorpusCase builds a fixed case.  The program is fixed too (fixedProg).
 func cpyCorpusCase(name string) *cpyCase {
@@ -1139,6 +1277,43 @@ func cpyCorpusCase(name string) *cpyCase {
 		if cs.srcMeta != 0 {
 			cs.prog = append(cs.prog, cpyOp{kind: "cr", catMeta: true}, cpyOp{kind: "cg", catMeta: true})
 		}
+	case "alias-shared":
+		// one stream reached directly, through alias 4 -> 3 and through alias 5 -> 4 -> 3
+		st := &cpyNode{ref: ref(3), kind: nkStream, dict: pdf.Dict{"CpyId": pdf.Integer(3)}, data: bytes.Repeat([]byte("shared "), 300)}
+		cs.nodes = []*cpyNode{node(2, pdf.Array{ref(3), ref(4), ref(5)}), st, node(4, ref(3)), node(5, ref(4))}
+		cs.prog = []cpyOp{{kind: "cr", ref: ref(2)}, {kind: "cr", ref: ref(5)}, {kind: "cr", ref: ref(3)}, {kind: "cr", ref: ref(4)}}
+	case "alias-cycle":
+		// a dictionary whose /Self reaches it again through an alias
+		cs.nodes = []*cpyNode{node(2, pdf.Dict{"Self": ref(3), "V": pdf.Integer(7)}), node(3, ref(2))}
+		cs.prog = []cpyOp{{kind: "cr", ref: ref(2)}, {kind: "cr", ref: ref(3)}}
+	case "alias-redirect":
+		// Redirect(2, n) also holds when 2 is reached through the alias 3
+		cs.nodes = []*cpyNode{node(2, pdf.Dict{"V": pdf.Integer(1)}), node(3, ref(2)), node(4, pdf.Array{ref(3), ref(2)})}
+		cs.prog = []cpyOp{{kind: "rn", ref: ref(2), marker: pdf.Dict{"Redirected": pdf.Integer(0)}}, {kind: "cr", ref: ref(4)}}
+	case "filter-is-self", "decodeparms-is-other-stream":
+		// a defective source: the copy has to fail cleanly (no endless recursion, target usable)
+		a := &cpyNode{ref: ref(3), kind: nkStream, dict: pdf.Dict{"CpyId": pdf.Integer(3)}, data: []byte("abc")}
+		b := &cpyNode{ref: ref(4), kind: nkStream, dict: pdf.Dict{"CpyId": pdf.Integer(4)}, data: []byte("other")}
+		if name == "filter-is-self" {
+			a.selfFilter = 1
+		} else {
+			a.selfFilter = 4
+		}
+		cs.nodes = []*cpyNode{node(2, pdf.Dict{"S": ref(3), "T": ref(4)}), a, b}
+		cs.prog = []cpyOp{{kind: "cr", ref: ref(2)}, {kind: "cr", ref: ref(4)}, {kind: "co", obj: pdf.Array{pdf.Integer(1)}}}
+		cs.mayFail = true
+	case "writer-source-readerat", "writer-source-no-readerat":
+		cs.srcWriter = true
+		cs.srcNoReaderAt = name == "writer-source-no-readerat"
+		st := &cpyNode{ref: ref(3), kind: nkStream, dict: pdf.Dict{"CpyId": pdf.Integer(3)}, data: []byte("stream data in a writer")}
+		cs.nodes = []*cpyNode{node(2, pdf.Dict{"S": ref(3), "V": pdf.String("x")}), st}
+		cs.prog = []cpyOp{{kind: "cr", ref: ref(2)}}
+	case "aes-empty-stream", "aes-iv-only", "aes-short-5", "aes-short-20":
+		cs.srcVer, cs.srcPw = pdf.V1_7, "src"
+		st := &cpyNode{ref: ref(3), kind: nkStream, dict: pdf.Dict{"CpyId": pdf.Integer(3)}}
+		st.aesLen = 1 + map[string]int{"aes-empty-stream": 0, "aes-iv-only": 16, "aes-short-5": 5, "aes-short-20": 20}[name]
+		cs.nodes = []*cpyNode{node(2, pdf.Dict{"Empty": ref(3), "Other": pdf.Integer(1)}), st}
+		cs.prog = []cpyOp{{kind: "cr", ref: ref(2)}}
 	default:
 		return nil
 	}
@@ -1192,7 +1367,9 @@ func runCPY(c *Ctx) {
 			c.Violate("copier", "corpus-case-not-built", name+": "+res.desc, "corpus "+name)
 			continue
 		}
-		c.Emit(res.opLine, res.line)
+		if !res.noEmit {
+			c.Emit(res.opLine, res.line)
+		}
 		c.Case(cpyHash(res.opLine), true)
 		c.Stat("corpus case")
 		c.Sample(cs.describe() + " => " + res.line)
@@ -1213,7 +1390,9 @@ func runCPY(c *Ctx) {
 			}
 			continue
 		}
-		c.Emit(res.opLine, res.line)
+		if !res.noEmit {
+			c.Emit(res.opLine, res.line)
+		}
 		c.Case(cpyHash(res.opLine), res.reached >= 2)
 		for f := range cs.features {
 			c.Stat("feature " + f)
